@@ -96,6 +96,11 @@ def clauseIII (s t : State) : Bool :=
 def clauseIVbudget (s t : State) : Bool :=
   !inScope s || decide (oldTotal s - oldTotal t ≤ unhealthyOld s + max 0 (availTotal s - minAvailable s))
 
+/-- (iv, spent) when the spec-based budget `old + new.available − (replicas − maxUnavailable)` is used up, a sync
+    does not lower the old ReplicaSets at all — whatever the (possibly stale) ReplicaSet statuses report -/
+def clauseIVspent (s t : State) : Bool :=
+  !(inScope s && decide (oldTotal s + optAvail s.new - minAvailable s ≤ 0)) || decide (oldTotal s ≤ oldTotal t)
+
 /-- (iv) a sync never leaves fewer than `replicas − maxUnavailable` of the currently available pods -/
 def clauseIV (s t : State) : Bool :=
   !inScope s || decide (min (floorAvail s) (minAvailable s) ≤ floorAvail t)
